@@ -146,10 +146,13 @@ impl Check for CanonCheck {
 }
 
 impl CanonCheck {
-    fn exec_with<N: Analysis<LS>>(&self, run: &Run, eg: EGraph<LS, N>) -> Outcome {
+    fn exec_with<N: Analysis<LS> + Clone>(&self, run: &Run, eg: EGraph<LS, N>) -> Outcome {
         let mut out = Outcome::default();
         seam::apply(&run.knobs());
         let mut s: Sess<LS, N> = Sess::new(eg, run.get("naming") as u32);
+        if run.get("companion") != 0 {
+            s.enable_companion();
+        }
         let n = pool_size(&run.ops);
         let mut ctx = CcCtx::new(n);
         ctx.unit_schema = run.get("analysis") == 2;
